@@ -1,7 +1,7 @@
 (** C17 (3): the lemma's proof still verifies in its slice.  Simulation of the reference verifier's walk over
     the database prefix by its walk over the slice. *)
 From Coq Require Import String List Bool Arith Lia.
-From Pi2 Require Import MM17.Ast MM17.Print MM17.Parse MM17.Wf MM17.Slice MM17.SliceSpec MM17.Verify
+From Pi2 Require Import MM17.Ast MM17.Print MM17.Parse MM17.Wf MM17.Slice MM17.SliceSpec MM17.Verify MM17.VerifySpec
      MM17.ParsePrintProofs MM17.SliceProofs MM17.VerifyProofs.
 Import ListNotations.
 Open Scope string_scope.
@@ -123,4 +123,1178 @@ Proof.
   - cbn [vstmt] in H. cbv zeta in H. destruct (expr_ok sc (pts ts)); [|discriminate].
     destruct (String.eqb l target); [discriminate|]. injection H as <-. repeat split.
   - rewrite vstmt_block in H. destruct (vstmts target sc ss); try discriminate. injection H as <-. repeat split.
+Qed.
+
+(* ------------------------------------------------------------------ B. simulation of kept statements *)
+Lemma filter_filter_imp {A} (P Q : A -> bool) l : (forall x, In x l -> P x = true -> Q x = true) ->
+  filter P (filter Q l) = filter P l.
+Proof.
+  induction l as [|a l IH]; intros H; [reflexivity|]. cbn [filter].
+  destruct (Q a) eqn:EQ.
+  - cbn [filter]. destruct (P a); rewrite IH; auto; intros x Hx; apply H; now right.
+  - destruct (P a) eqn:EP.
+    + rewrite (H a (or_introl eq_refl) EP) in EQ. discriminate.
+    + apply IH. intros x Hx. apply H. now right.
+Qed.
+
+Lemma flat_map_ext_in' {A B} (f g : A -> list B) l : (forall a, In a l -> f a = g a) -> flat_map f l = flat_map g l.
+Proof.
+  induction l as [|a l IH]; intros H; [reflexivity|]. cbn [flat_map]. rewrite (H a (or_introl eq_refl)).
+  f_equal. apply IH. intros x Hx. apply H. now right.
+Qed.
+
+Section Sim.
+  Variable V C M : list string.
+  Variable target : string.
+  Hypothesis HMV : incl M V.
+
+  Definition keepH (h : hyp) : bool := negb (h_isf h) || mem (hyp_var h) M.
+  Definition bothM (p : string * string) : bool := mem (fst p) M && mem (snd p) M.
+
+  Definition vtok (A : list string) (e : expr) : Prop := forall t, In t e -> In t V -> In t A /\ In t M.
+  Definition eok (A : list string) (e : expr) : Prop := vtok A e /\ forall t, In t e -> In t M \/ In t C.
+
+  Definition hyp_ok (A : list string) (h : hyp) : Prop :=
+    if h_isf h then exists ty v, h_expr h = [ty; v] else vtok A (h_expr h).
+
+  Record Rel (sc sc' : scope) : Prop := {
+    r_consts : s_consts sc' = C;
+    r_vars : s_vars sc' = M;
+    r_hyps : s_hyps sc' = filter keepH (s_hyps sc);
+    r_dvs : s_dvs sc' = filter bothM (s_dvs sc);
+    r_kc : forall c, In c (s_consts sc) -> ~ In c V;
+    r_av : incl (s_vars sc) V;
+    r_hok : Forall (hyp_ok (s_vars sc)) (s_hyps sc) }.
+
+  Lemma vars_of_eq A e : vtok A e -> incl A V -> vars_of A e = vars_of M e.
+  Proof.
+    intros H HA. unfold vars_of. apply filter_ext_in. intros t Ht.
+    destruct (mem t A) eqn:E1, (mem t M) eqn:E2; try reflexivity.
+    - apply mem_In in E1. destruct (H t Ht (HA t E1)) as [_ H2]. apply mem_In in H2. congruence.
+    - apply mem_In in E2. destruct (H t Ht (HMV t E2)) as [H1 _]. apply mem_In in H1. congruence.
+  Qed.
+
+  Lemma vars_of_M_in e x : In x (vars_of M e) -> In x M.
+  Proof. unfold vars_of. intros H. apply filter_In in H. destruct H as [_ H]. now apply mem_In. Qed.
+
+  Lemma make_frame_sim sc sc' e : Rel sc sc' -> vtok (s_vars sc) e -> make_frame sc' e = make_frame sc e.
+  Proof.
+    intros R He. destruct R as [RC RV RH RD RK RA RO].
+    unfold make_frame. rewrite RV, RH, RD.
+    assert (Ess : filter (fun h => negb (h_isf h)) (filter keepH (s_hyps sc)) = filter (fun h => negb (h_isf h)) (s_hyps sc)).
+    { apply filter_filter_imp. intros h _ Hh. unfold keepH. now rewrite Hh. }
+    rewrite Ess.
+    assert (Used : (vars_of M e ++ flat_map (fun h => vars_of M (h_expr h)) (filter (fun h => negb (h_isf h)) (s_hyps sc)))%list
+                   = (vars_of (s_vars sc) e ++ flat_map (fun h => vars_of (s_vars sc) (h_expr h))
+                                                       (filter (fun h => negb (h_isf h)) (s_hyps sc)))%list).
+    { rewrite (vars_of_eq _ _ He RA). f_equal. apply flat_map_ext_in'. intros h Hh. apply filter_In in Hh. destruct Hh as [Hin Hf].
+      symmetry. apply vars_of_eq; [|exact RA]. rewrite Forall_forall in RO. specialize (RO h Hin). unfold hyp_ok in RO.
+      apply negb_true_iff in Hf. now rewrite Hf in RO. }
+    rewrite <- Used.
+    set (used := (vars_of M e ++ flat_map (fun h => vars_of M (h_expr h)) (filter (fun h => negb (h_isf h)) (s_hyps sc)))%list).
+    assert (UM : forall x, In x used -> In x M).
+    { intros x Hx. unfold used in Hx. apply in_app_or in Hx. destruct Hx as [Hx|Hx]; [now apply vars_of_M_in in Hx|].
+      apply in_flat_map in Hx. destruct Hx as [h [_ Hx]]. now apply vars_of_M_in in Hx. }
+    f_equal.
+    - apply filter_filter_imp. intros h _ Hh. unfold keepH. apply orb_true_iff in Hh. destruct Hh as [Hh|Hh]; [now rewrite Hh|].
+      apply mem_In in Hh. apply UM in Hh. apply mem_In in Hh. rewrite Hh. apply orb_true_r.
+    - apply filter_filter_imp. intros p _ Hp. unfold bothM. apply andb_true_iff in Hp. destruct Hp as [H1 H2].
+      apply mem_In in H1, H2. apply UM in H1, H2. apply mem_In in H1, H2. now rewrite H1, H2.
+  Qed.
+
+  Lemma expr_ok_sim sc sc' e : Rel sc sc' -> eok (s_vars sc) e -> expr_ok sc e = true -> expr_ok sc' e = true.
+  Proof.
+    intros R [He1 He2] H. pose proof R as [RC RV RH RD RK RA RO].
+    unfold expr_ok in *. destruct e as [|ty rest]; [discriminate|].
+    apply andb_true_iff in H. destruct H as [H H3]. apply andb_true_iff in H. destruct H as [H1 H2].
+    rewrite RC, RV, RH.
+    assert (Hty : mem ty C = true).
+    { apply mem_In. apply mem_In in H1. destruct (He2 ty (or_introl eq_refl)) as [Hm|Hc]; [|exact Hc].
+      exfalso. apply (RK ty H1). now apply HMV. }
+    rewrite Hty. cbn [andb]. apply andb_true_iff. split.
+    - apply forallb_forall. intros t Ht. destruct (He2 t (or_intror Ht)) as [Hm|Hc].
+      + apply mem_In in Hm. rewrite Hm. apply orb_true_r.
+      + apply mem_In in Hc. now rewrite Hc.
+    - rewrite <- (vars_of_eq (s_vars sc) (ty :: rest) He1 RA).
+      rewrite forallb_forall in *. intros v Hv. specialize (H3 v Hv).
+      apply existsb_exists in H3. destruct H3 as [h [Hh Eh]]. apply existsb_exists. exists h. split; [|exact Eh].
+      apply filter_In. split; [exact Hh|]. apply andb_true_iff in Eh. destruct Eh as [E1 E2].
+      apply String.eqb_eq in E2. unfold keepH. rewrite E2.
+      assert (HvM : In v M).
+      { unfold vars_of in Hv. apply filter_In in Hv. destruct Hv as [Hv1 Hv2]. apply mem_In in Hv2.
+        now apply (He1 v Hv1 (RA v Hv2)). }
+      apply mem_In in HvM. rewrite HvM. apply orb_true_r.
+  Qed.
+End Sim.
+
+(** what the slicer stores for a provable statement: the same statement as an axiom *)
+Fixpoint toax (s : stmt) : stmt :=
+  match s with
+  | SP l ts _ => SA l ts
+  | SB ss => SB (map toax ss)
+  | _ => s
+  end.
+
+Fixpoint kgood (s : stmt) : bool :=
+  match s with
+  | SD _ | SE _ _ | SA _ _ | SP _ _ _ => true
+  | SB ss => (fix go (l : list stmt) : bool := match l with [] => true | a :: l' => kgood a && go l' end) ss
+  | _ => false
+  end.
+Lemma kgood_block ss : kgood (SB ss) = forallb kgood ss.
+Proof. cbn [kgood]. induction ss as [|a ss IH]; [reflexivity|]. cbn [forallb]. now rewrite IH. Qed.
+
+Fixpoint stmt_exprs (s : stmt) : list expr :=
+  match s with
+  | SE _ ts | SA _ ts | SP _ ts _ => [pts ts]
+  | SB ss => flat_map stmt_exprs ss
+  | _ => []
+  end.
+Fixpoint stmt_dvars (s : stmt) : list string :=
+  match s with
+  | SD vs => vs
+  | SB ss => flat_map stmt_dvars ss
+  | _ => []
+  end.
+
+Lemma all_pairs_in vs p : In p (all_pairs vs) -> In (fst p) vs /\ In (snd p) vs.
+Proof.
+  unfold all_pairs. intros H. apply in_flat_map in H. destruct H as [a [Ha H]].
+  apply in_flat_map in H. destruct H as [b [Hb H]]. destruct (String.eqb a b); [destruct H|].
+  destruct H as [<-|[]]. split; assumption.
+Qed.
+
+Lemma filter_all_true {A} (f : A -> bool) l : (forall x, In x l -> f x = true) -> filter f l = l.
+Proof.
+  induction l as [|a l IH]; intros H; [reflexivity|]. cbn [filter]. rewrite (H a (or_introl eq_refl)).
+  f_equal. apply IH. intros x Hx. apply H. now right.
+Qed.
+
+Section Sim2.
+  Variable V C M : list string.
+  Variable target : string.
+  Hypothesis HMV : incl M V.
+
+  Notation Rel := (Rel V C M).
+  Notation eok := (eok V C M).
+
+  Definition simP (st : stmt) : Prop :=
+    forall sc sc' sc1, kgood st = true -> (forall e, In e (stmt_exprs st) -> eok (s_vars sc) e) ->
+      incl (stmt_dvars st) M -> Rel sc sc' -> vstmt target sc st = WCont sc1 ->
+      exists sc1' new, vstmt target sc' (toax st) = WCont sc1' /\ Rel sc1 sc1' /\
+        s_labels sc1 = (new ++ s_labels sc)%list /\ s_labels sc1' = (new ++ s_labels sc')%list /\
+        s_vars sc1 = s_vars sc.
+
+  Lemma sim_stmts ss : Forall simP ss -> forall sc sc' sc1,
+    forallb kgood ss = true -> (forall e, In e (flat_map stmt_exprs ss) -> eok (s_vars sc) e) ->
+    incl (flat_map stmt_dvars ss) M -> Rel sc sc' -> vstmts target sc ss = WCont sc1 ->
+    exists sc1' new, vstmts target sc' (map toax ss) = WCont sc1' /\ Rel sc1 sc1' /\
+      s_labels sc1 = (new ++ s_labels sc)%list /\ s_labels sc1' = (new ++ s_labels sc')%list /\
+      s_vars sc1 = s_vars sc.
+  Proof.
+    induction ss as [|a ss IHss]; intros F sc sc' sc1 K HE HD R H.
+    - cbn in H. injection H as <-. exists sc', []. split; [reflexivity|]. split; [exact R|]. repeat split; reflexivity.
+    - inversion F as [|? ? Pa Fr]; subst. cbn [forallb] in K. apply andb_true_iff in K. destruct K as [Ka Kr].
+      cbn [vstmts] in H. destruct (vstmt target sc a) as [| sc2 |] eqn:Ea; try discriminate.
+      destruct (Pa sc sc' sc2 Ka) as (sc2' & n1 & E1 & R1 & L1 & L1' & V1); try assumption.
+      + intros e He. apply HE. cbn [flat_map]. apply in_or_app. now left.
+      + intros x Hx. apply HD. cbn [flat_map]. apply in_or_app. now left.
+      + destruct (IHss Fr sc2 sc2' sc1 Kr) as (sc1' & n2 & E2 & R2 & L2 & L2' & V2); try assumption.
+        * intros e He. rewrite V1. apply HE. cbn [flat_map]. apply in_or_app. now right.
+        * intros x Hx. apply HD. cbn [flat_map]. apply in_or_app. now right.
+        * exists sc1', (n2 ++ n1)%list. cbn [map vstmts]. rewrite E1. split; [exact E2|]. split; [exact R2|].
+          rewrite L2, L1, L2', L1', V2, V1, !app_assoc. repeat split; reflexivity.
+  Qed.
+
+  Lemma sim_stmt st : simP st.
+  Proof.
+    induction st as [cs|vs|vs|l ty v|l ts|l ts|l ts pf|ss IH] using stmt_ind2;
+      intros sc sc' sc1 K HE HD R H; try (cbn in K; discriminate).
+    - (* $d inside a block *)
+      cbn [vstmt] in H. destruct (forallb (fun v => mem v (s_vars sc)) vs) eqn:Ev; [|discriminate]. injection H as <-.
+      pose proof R as [RC RV RH RD RK RA RO]. cbn [toax vstmt stmt_dvars] in *.
+      rewrite RV. replace (forallb (fun v => mem v M) vs) with true by (symmetry; now apply forallb_mem_incl).
+      eexists _, []. split; [reflexivity|]. split; [|repeat split; reflexivity].
+      constructor; cbn [s_consts s_vars s_hyps s_dvs]; try assumption; try reflexivity.
+      rewrite RD, filter_app. f_equal. symmetry. apply filter_all_true. intros p Hp.
+      apply all_pairs_in in Hp. destruct Hp as [H1 H2]. apply HD in H1, H2. apply mem_In in H1, H2.
+      unfold bothM. now rewrite H1, H2.
+    - (* $e *)
+      cbn [vstmt] in H. cbv zeta in H. destruct (expr_ok sc (pts ts)) eqn:Eo; [|discriminate]. injection H as <-.
+      assert (He : eok (s_vars sc) (pts ts)) by (apply HE; now left).
+      pose proof R as [RC RV RH RD RK RA RO]. cbn [toax vstmt]. cbv zeta.
+      rewrite (expr_ok_sim V C M HMV sc sc' _ R He Eo).
+      eexists _, [(l, LHyp (pts ts))]. split; [reflexivity|]. split; [|repeat split; reflexivity].
+      constructor; cbn [add_hyp s_consts s_vars s_hyps s_dvs]; try assumption.
+      + rewrite RH, filter_app. cbn [filter keepH h_isf negb orb]. reflexivity.
+      + apply Forall_app. split; [assumption|]. constructor; [|constructor]. unfold hyp_ok. cbn [h_isf h_expr]. apply He.
+    - (* $a *)
+      cbn [vstmt] in H. cbv zeta in H. destruct (expr_ok sc (pts ts)) eqn:Eo; [|discriminate]. injection H as <-.
+      assert (He : eok (s_vars sc) (pts ts)) by (apply HE; now left).
+      pose proof R as [RC RV RH RD RK RA RO]. cbn [toax vstmt]. cbv zeta.
+      rewrite (expr_ok_sim V C M HMV sc sc' _ R He Eo). rewrite (make_frame_sim V C M HMV sc sc' _ R (proj1 He)).
+      eexists _, [(l, _)]. split; [reflexivity|]. split; [|repeat split; reflexivity].
+      constructor; cbn [add_label s_consts s_vars s_hyps s_dvs]; assumption.
+    - (* $p (not the target) becomes $a *)
+      cbn [vstmt] in H. cbv zeta in H. destruct (expr_ok sc (pts ts)) eqn:Eo; [|discriminate].
+      destruct (String.eqb l target); [discriminate|]. injection H as <-.
+      assert (He : eok (s_vars sc) (pts ts)) by (apply HE; now left).
+      pose proof R as [RC RV RH RD RK RA RO]. cbn [toax vstmt]. cbv zeta.
+      rewrite (expr_ok_sim V C M HMV sc sc' _ R He Eo). rewrite (make_frame_sim V C M HMV sc sc' _ R (proj1 He)).
+      eexists _, [(l, _)]. split; [reflexivity|]. split; [|repeat split; reflexivity].
+      constructor; cbn [add_label s_consts s_vars s_hyps s_dvs]; assumption.
+    - (* block *)
+      rewrite kgood_block in K. rewrite vstmt_block in H.
+      destruct (vstmts target sc ss) as [| inner |] eqn:Ei; try discriminate. injection H as <-.
+      destruct (sim_stmts ss IH sc sc' inner K HE HD R Ei) as (inner' & nI & E' & RI & LI & LI' & VI).
+      cbn [toax]. rewrite vstmt_block, E'.
+      eexists _, (filter is_assert nI). split; [reflexivity|].
+      pose proof R as [RC RV RH RD RK RA RO].
+      split; [constructor; cbn [leave_block s_consts s_vars s_hyps s_dvs]; assumption|].
+      unfold leave_block. cbn [s_labels s_vars]. rewrite LI, LI', !firstn_app_exact. repeat split; reflexivity.
+  Qed.
+End Sim2.
+
+(* ------------------------------------------------------------------ C. shape of the slicer's run *)
+Definition entry (st : stmt) : dict :=
+  match st with
+  | SC _ | SV _ => []
+  | SD _ => [(None, st)]
+  | SF l _ _ | SE l _ => [(Some l, st)]
+  | _ => match match_axiom st with
+         | MAx k => [(Some k, st)]
+         | MNone => match deconstruct_provable st with
+                    | Some (ants, l, ts, _) => [(Some l, construct_axiom ants l ts)]
+                    | None => []
+                    end
+         | MCrash => []
+         end
+  end.
+
+Definition processable (st : stmt) : Prop :=
+  match st with SA _ _ | SP _ _ _ | SB _ => entry st <> [] | _ => True end.
+
+Lemma keys_entry st : processable st -> keys (entry st) = top_label st.
+Proof.
+  destruct st; cbn [processable entry top_label]; intros P; try reflexivity.
+  - destruct (match_axiom (SB ss)); try reflexivity; [congruence|].
+    destruct (deconstruct_provable (SB ss)) as [[[[a l0] t] p]|]; reflexivity.
+Qed.
+
+Lemma nodup_app_disj {A} (a b : list A) x : NoDup (a ++ b) -> In x b -> ~ In x a.
+Proof.
+  induction a as [|y a IH]; intros ND Hb Ha; [destruct Ha|].
+  cbn [app] in ND. inversion ND as [|? ? Hy ND']; subst. destruct Ha as [->|Ha].
+  - apply Hy. apply in_or_app. now right.
+  - now apply (IH ND' Hb).
+Qed.
+
+Lemma slice_loop_struct sd incl_ excl_ : forall stmts cut l s,
+  NoDup (keys cut ++ flat_map top_label stmts) ->
+  In (l, s) (fst (slice_loop sguards_fixed sd incl_ excl_ stmts cut [])) ->
+  exists pre st post ants ts pf, stmts = (pre ++ st :: post)%list /\ Forall processable pre /\
+    match_axiom st = MNone /\ deconstruct_provable st = Some (ants, l, ts, pf) /\
+    supporting sguards_fixed (cut ++ flat_map entry pre)%list [] sd l ts pf ants = Some s.
+Proof.
+  induction stmts as [|st rest IH]; intros cut l s ND Hin; [destruct Hin|].
+  cbn [flat_map] in ND.
+  assert (Hrec : processable st ->
+            In (l, s) (fst (slice_loop sguards_fixed sd incl_ excl_ rest (cut ++ entry st)%list [])) ->
+            exists pre st0 post ants ts pf, (st :: rest = pre ++ st0 :: post)%list /\ Forall processable pre /\
+              match_axiom st0 = MNone /\ deconstruct_provable st0 = Some (ants, l, ts, pf) /\
+              supporting sguards_fixed (cut ++ flat_map entry pre)%list [] sd l ts pf ants = Some s).
+  { intros P Hin'. destruct (IH (cut ++ entry st)%list l s) as (pre & st0 & post & ants & ts & pf & E & F & MA & DP & SU).
+    - rewrite keys_app, (keys_entry st P), <- app_assoc. exact ND.
+    - exact Hin'.
+    - exists (st :: pre), st0, post, ants, ts, pf. split; [now rewrite E|]. split; [now constructor|].
+      split; [assumption|]. split; [assumption|]. cbn [flat_map]. now rewrite app_assoc. }
+  assert (Hfresh : forall k, In k (top_label st) -> ~ In k (keys cut)).
+  { intros k Hk. apply (nodup_app_disj _ _ k ND). apply in_or_app. now left. }
+  cbn [slice_loop] in Hin.
+  assert (Hax : forall k, match_axiom st = MAx k -> match st with SA _ _ | SP _ _ _ | SB _ => True | _ => False end ->
+            In (l, s) (fst (slice_loop sguards_fixed sd incl_ excl_ rest (dict_set k st cut) [])) ->
+            exists pre st0 post ants ts pf, (st :: rest = pre ++ st0 :: post)%list /\ Forall processable pre /\
+              match_axiom st0 = MNone /\ deconstruct_provable st0 = Some (ants, l, ts, pf) /\
+              supporting sguards_fixed (cut ++ flat_map entry pre)%list [] sd l ts pf ants = Some s).
+  { intros k Hk Hshape Hin'.
+    assert (Ee : entry st = [(Some k, st)]) by (destruct st; try destruct Hshape; cbn [entry]; now rewrite Hk).
+    assert (Tl : top_label st = [k]).
+    { destruct st; try destruct Hshape.
+      - cbn in Hk. now injection Hk as ->.
+      - cbn in Hk. discriminate.
+      - cbn [top_label]. now rewrite Hk. }
+    apply Hrec.
+    - destruct st; try destruct Hshape; cbn [processable]; rewrite Ee; discriminate.
+    - rewrite Ee. rewrite <- (dict_set_fresh k st cut); [exact Hin'|]. apply Hfresh. rewrite Tl. now left. }
+  assert (Hprov : match_axiom st = MNone -> match st with SA _ _ | SP _ _ _ | SB _ => True | _ => False end ->
+            In (l, s) (fst (match deconstruct_provable st with
+                | None => ([], true)
+                | Some (ants, l0, ts, pf) =>
+                    let cut' := dict_set l0 (construct_axiom ants l0 ts) cut in
+                    if mem l0 incl_ && negb (mem l0 excl_) then
+                      match supporting sguards_fixed cut [] sd l0 ts pf ants with
+                      | None => ([], true)
+                      | Some s0 => let (ys, c) := slice_loop sguards_fixed sd incl_ excl_ rest cut' [] in ((l0, s0) :: ys, c)
+                      end
+                    else slice_loop sguards_fixed sd incl_ excl_ rest cut' []
+                end)) ->
+            exists pre st0 post ants ts pf, (st :: rest = pre ++ st0 :: post)%list /\ Forall processable pre /\
+              match_axiom st0 = MNone /\ deconstruct_provable st0 = Some (ants, l, ts, pf) /\
+              supporting sguards_fixed (cut ++ flat_map entry pre)%list [] sd l ts pf ants = Some s).
+  { intros Hm Hshape Hin'.
+    destruct (deconstruct_provable st) as [[[[ants l0] ts] pf]|] eqn:ED; [|destruct Hin'].
+    cbv zeta in Hin'.
+    assert (Ee : entry st = [(Some l0, construct_axiom ants l0 ts)]).
+    { destruct st; try destruct Hshape; cbn [entry]; rewrite Hm, ED; reflexivity. }
+    assert (Tl : top_label st = [l0]).
+    { destruct st; try destruct Hshape; cbn [top_label].
+      - cbn in Hm. discriminate.
+      - cbn in ED. now injection ED as _ -> _ _.
+      - now rewrite Hm, ED. }
+    assert (Hr : In (l, s) (fst (slice_loop sguards_fixed sd incl_ excl_ rest (dict_set l0 (construct_axiom ants l0 ts) cut) [])) ->
+                 exists pre st0 post ants ts pf, (st :: rest = pre ++ st0 :: post)%list /\ Forall processable pre /\
+                   match_axiom st0 = MNone /\ deconstruct_provable st0 = Some (ants, l, ts, pf) /\
+                   supporting sguards_fixed (cut ++ flat_map entry pre)%list [] sd l ts pf ants = Some s).
+    { intros Hin2. apply Hrec.
+      - destruct st; try destruct Hshape; cbn [processable]; rewrite Ee; discriminate.
+      - rewrite Ee. rewrite <- (dict_set_fresh l0 _ cut); [exact Hin2|]. apply Hfresh. rewrite Tl. now left. }
+    destruct (mem l0 incl_ && negb (mem l0 excl_)); [|now apply Hr].
+    destruct (supporting sguards_fixed cut [] sd l0 ts pf ants) as [s0|] eqn:ES; [|destruct Hin'].
+    destruct (slice_loop sguards_fixed sd incl_ excl_ rest (dict_set l0 (construct_axiom ants l0 ts) cut) []) as [ys c] eqn:EY.
+    cbn [fst In] in Hin'. destruct Hin' as [E|Hin'].
+    - injection E as <- <-. exists [], st, rest, ants, ts, pf. split; [reflexivity|]. split; [constructor|].
+      split; [assumption|]. split; [assumption|]. cbn [flat_map]. now rewrite app_nil_r.
+    - apply Hr. exact Hin'. }
+  destruct st as [cs|vs|vs|l0 ty v|l0 ts|l0 ts|l0 ts pf|ss].
+  - apply Hrec; [exact I|]. cbn [entry]. now rewrite app_nil_r.
+  - apply Hrec; [exact I|]. cbn [entry]. now rewrite app_nil_r.
+  - cbn [g_d_in_place sguards_fixed] in Hin. apply Hrec; [exact I|exact Hin].
+  - apply Hrec; [exact I|]. cbn [entry]. rewrite <- (dict_set_fresh l0 _ cut); [exact Hin|]. apply Hfresh. now left.
+  - cbn [g_top_essential sguards_fixed] in Hin. apply Hrec; [exact I|]. cbn [entry].
+    rewrite <- (dict_set_fresh l0 _ cut); [exact Hin|]. apply Hfresh. now left.
+  - destruct (match_axiom (SA l0 ts)) as [| |k] eqn:EM; [destruct Hin|now apply Hprov|now apply (Hax k)].
+  - destruct (match_axiom (SP l0 ts pf)) as [| |k] eqn:EM; [destruct Hin|now apply Hprov|now apply (Hax k)].
+  - destruct (match_axiom (SB ss)) as [| |k] eqn:EM; [destruct Hin|now apply Hprov|now apply (Hax k)].
+Qed.
+
+Lemma stmt_consts_csyms st : forall c, stmt_consts st = Some c -> c = stmt_csyms st.
+Proof.
+  induction st as [cs|vs|vs|l ty v|l ts|l ts|l ts pf|ss IH] using stmt_ind2; intros c H; cbn [stmt_consts stmt_csyms] in *;
+    try discriminate; try (now injection H as <-).
+  rewrite go_stmt_consts in H. revert c H. induction ss as [|a ss IHss]; intros c H.
+  - cbn in H. now injection H as <-.
+  - inversion IH as [|? ? IHa IHr]; subst. cbn [stmts_consts] in H.
+    destruct (stmt_consts a) as [x|] eqn:Ea; [|discriminate]. destruct (stmts_consts ss) as [y|] eqn:Es; [|discriminate].
+    injection H as <-. cbn [flat_map]. rewrite (IHa x eq_refl), (IHss IHr y eq_refl). reflexivity.
+Qed.
+
+Definition hdr (M : list string) : list stmt := match M with [] => [] | _ => [SV M] end.
+
+Lemma supporting_inv cut sd l ts pf ess s :
+  supporting sguards_fixed cut [] sd l ts pf ess = Some s ->
+  exists labels n2 M C,
+    proof_labels pf = Some labels /\ incl labels n2 /\
+    (forall x, In x n2 -> exists st', dict_get x cut = Some st' /\ incl (stmt_mvs st') M) /\
+    (forall k l0 ts0, In (k, SE l0 ts0) cut -> incl (flat_map term_mvs ts0) M) /\
+    (forall st', In st' (SP l ts pf :: ess) -> incl (stmt_mvs st') M /\ incl (stmt_csyms st') C) /\
+    (forall x, In x M -> exists st', In st' (SP l ts pf :: ess ++ map snd cut)%list /\ In x (stmt_mvs st')) /\
+    In LP C /\ In RP C /\
+    (forall st', In st' (flat_map (keep_entry sguards_fixed n2 M) cut) -> incl (stmt_csyms st') C) /\
+    s = (SC C :: hdr M ++ flat_map (keep_entry sguards_fixed n2 M) cut ++ [SB (ess ++ [SP l ts pf])])%list.
+Proof.
+  intros H. unfold supporting in H.
+  destruct (proof_labels pf) as [labels|] eqn:EL; [|discriminate].
+  set (n1 := (labels ++ flat_map (sugar_of cut) labels)%list) in *.
+  set (n2 := (n1 ++ flat_map (fun x => match assoc_get x sd with Some d => d | None => [] end) n1)%list) in *.
+  destruct (map_opt (fun x => dict_get x cut) n2) as [nst|] eqn:EN; [|discriminate].
+  set (top_ess := filter is_SE (map snd cut)) in *.
+  set (all := (SP l ts pf :: ess ++ top_ess ++ nst)%list) in *.
+  destruct (stmts_consts all) as [cs|] eqn:ECS; [|discriminate].
+  set (M := sort_uniq (flat_map stmt_mvs all)) in *.
+  set (kept := flat_map (keep_entry sguards_fixed n2 M) cut) in *.
+  cbn [g_float_consts sguards_fixed] in H.
+  destruct (stmts_consts kept) as [cs2|] eqn:ECS2; [|discriminate].
+  set (C := sort_uniq (builtins ++ cs ++ cs2)) in *.
+  assert (HallM : forall st, In st all -> incl (stmt_mvs st) M).
+  { intros st Hst x Hx. apply sort_uniq_In. apply in_flat_map. eauto. }
+  assert (HallC : forall st, In st all -> incl (stmt_csyms st) C).
+  { intros st Hst. destruct (stmts_consts_In all cs ECS st Hst) as [c [Hc Ic]].
+    rewrite <- (stmt_consts_csyms st c Hc). intros x Hx. apply sort_uniq_In. apply in_or_app. right.
+    apply in_or_app. left. now apply Ic. }
+  exists labels, n2, M, C.
+  split; [reflexivity|]. split; [intros x Hx; apply in_or_app; left; apply in_or_app; now left|].
+  split; [|split; [|split; [|split; [|split; [|split; [|split]]]]]].
+  - intros x Hx. destruct (map_opt_In _ _ _ EN x Hx) as [st' [H1 H2]]. exists st'. split; [assumption|].
+    apply HallM. right. apply in_or_app. right. apply in_or_app. now right.
+  - intros k l0 ts0 Hin. apply (HallM (SE l0 ts0)). right. apply in_or_app. right. apply in_or_app. left.
+    apply filter_In. split; [|reflexivity]. apply in_map_iff. exists (k, SE l0 ts0). split; [reflexivity|assumption].
+  - intros st' Hst'. assert (Hin : In st' all).
+    { destruct Hst' as [<-|Hst']; [now left|]. right. apply in_or_app. now left. }
+    split; [now apply HallM|now apply HallC].
+  - intros x Hx. unfold M in Hx. apply (proj1 (sort_uniq_In _ _)) in Hx. apply in_flat_map in Hx.
+    destruct Hx as [st' [Hst' Hx]]. exists st'. split; [|assumption].
+    destruct Hst' as [<-|Hst']; [now left|]. right. apply in_app_or in Hst'. destruct Hst' as [Hst'|Hst']; [apply in_or_app; now left|].
+    apply in_or_app. right. apply in_app_or in Hst'. destruct Hst' as [Hst'|Hst'].
+    + apply filter_In in Hst'. now destruct Hst'.
+    + destruct (map_opt_In_rev _ _ _ EN st' Hst') as [k [_ Hk]]. apply dict_get_In in Hk.
+      apply in_map_iff. exists (Some k, st'). split; [reflexivity|assumption].
+  - apply sort_uniq_In. now left.
+  - apply sort_uniq_In. right. now left.
+  - intros st' Hst'. destruct (stmts_consts_In kept cs2 ECS2 st' Hst') as [c [Hc Ic]].
+    rewrite <- (stmt_consts_csyms st' c Hc). intros x Hx. apply sort_uniq_In. apply in_or_app. right.
+    apply in_or_app. right. now apply Ic.
+  - injection H as <-. reflexivity.
+Qed.
+
+(* ------------------------------------------------------------------ D1. helpers for the top-level simulation *)
+Lemma filter_flat_map {A B} (f : B -> bool) (g : A -> list B) l :
+  filter f (flat_map g l) = flat_map (fun x => filter f (g x)) l.
+Proof. induction l as [|a l IH]; [reflexivity|]. cbn [flat_map]. now rewrite filter_app, IH. Qed.
+
+Lemma flat_map_filter {A B} (p : A -> bool) (g : A -> list B) l :
+  flat_map g (filter p l) = flat_map (fun x => if p x then g x else []) l.
+Proof.
+  induction l as [|a l IH]; [reflexivity|]. cbn [filter flat_map]. destruct (p a); cbn [flat_map app]; now rewrite IH.
+Qed.
+
+Lemma all_pairs_filter M vs :
+  filter (bothM M) (all_pairs vs) = all_pairs (filter (fun v => mem v M) vs).
+Proof.
+  unfold all_pairs. rewrite filter_flat_map, flat_map_filter. apply flat_map_ext_in'. intros a _.
+  rewrite filter_flat_map, flat_map_filter.
+  destruct (mem a M) eqn:Ea.
+  - apply flat_map_ext_in'. intros b _. destruct (String.eqb a b); [now destruct (mem b M)|].
+    cbn [filter]. unfold bothM. cbn [fst snd]. rewrite Ea. cbn [andb]. destruct (mem b M); reflexivity.
+  - rewrite <- (flat_map_ext_in' (fun _ => []) _ vs); [induction vs; auto|].
+    intros b _. destruct (String.eqb a b); [reflexivity|]. cbn [filter]. unfold bothM. cbn [fst snd]. now rewrite Ea.
+Qed.
+
+Lemma all_pairs_short vs : length vs < 2 -> all_pairs vs = [].
+Proof.
+  destruct vs as [|a [|b vs]]; cbn [length]; intros H; try lia; [reflexivity|].
+  unfold all_pairs. cbn. now rewrite String.eqb_refl.
+Qed.
+
+Lemma hyp_ok_mono V M A A' h : incl A A' -> hyp_ok V M A h -> hyp_ok V M A' h.
+Proof.
+  unfold hyp_ok, vtok. intros HA H. destruct (h_isf h); [assumption|].
+  intros t Ht Hv. destruct (H t Ht Hv) as [H1 H2]. split; [now apply HA|assumption].
+Qed.
+
+(** tokens of a printed term: its variables, its constant symbols, parentheses *)
+Lemma pt_tokens t x : In x (pt t) -> In x (term_mvs t) \/ x = LP \/ x = RP \/ In x (term_consts t).
+Proof.
+  induction t as [y|c args IH] using term_ind2; cbn [pt term_mvs term_consts].
+  - intros [<-|[]]. left. now left.
+  - destruct args as [|a args].
+    + intros [<-|[]]. right. right. right. now left.
+    + intros [<-|[<-|H]]; [right; now left|right; right; right; now left|].
+      apply in_app_or in H. destruct H as [H|[<-|[]]]; [|right; right; now left].
+      apply in_flat_map in H. destruct H as [t [Ht Hx]]. rewrite Forall_forall in IH.
+      destruct (IH t Ht Hx) as [H|[H|[H|H]]]; [left|right; now left|right; right; now left|right; right; right; right];
+        apply in_flat_map; eauto.
+Qed.
+
+Lemma pts_tokens ts x : In x (pts ts) ->
+  In x (flat_map term_mvs ts) \/ x = LP \/ x = RP \/ In x (flat_map term_consts ts).
+Proof.
+  unfold pts. intros H. apply in_flat_map in H. destruct H as [t [Ht Hx]].
+  destruct (pt_tokens t x Hx) as [H|[H|[H|H]]]; [left|right; now left|right; right; now left|right; right; right];
+    apply in_flat_map; eauto.
+Qed.
+
+Lemma stmt_exprs_tokens st : forall e x, In e (stmt_exprs st) -> In x e ->
+  In x (stmt_mvs st) \/ x = LP \/ x = RP \/ In x (stmt_csyms st).
+Proof.
+  induction st as [cs|vs|vs|l ty v|l ts|l ts|l ts pf|ss IH] using stmt_ind2; intros e x He Hx;
+    cbn [stmt_exprs stmt_mvs stmt_csyms] in *; try destruct He as [<-|[]]; try (now apply pts_tokens); try destruct He.
+  apply in_flat_map in He. destruct He as [s [Hs He]]. rewrite Forall_forall in IH.
+  destruct (IH s Hs e x He Hx) as [H|[H|[H|H]]]; [left|right; now left|right; right; now left|right; right; right];
+    apply in_flat_map; eauto.
+Qed.
+
+Lemma eok_of_facts V C M A st :
+  incl (stmt_mvs st) M -> incl (stmt_mvs st) A -> incl (stmt_csyms st) C ->
+  (forall c, In c (stmt_csyms st) -> ~ In c V) -> ~ In LP V -> ~ In RP V -> In LP C -> In RP C ->
+  forall e, In e (stmt_exprs st) -> eok V C M A e.
+Proof.
+  intros HM HA HC HS HL HR HLC HRC e He. split.
+  - intros t Ht Hv. destruct (stmt_exprs_tokens st e t He Ht) as [H|[->|[->|H]]]; try contradiction.
+    + split; [now apply HA|now apply HM].
+    + exfalso. now apply (HS t H).
+  - intros t Ht. destruct (stmt_exprs_tokens st e t He Ht) as [H|[->|[->|H]]].
+    + left. now apply HM.
+    + now right.
+    + now right.
+    + right. now apply HC.
+Qed.
+
+Lemma stmt_dvars_mvs st : incl (stmt_dvars st) (stmt_mvs st).
+Proof.
+  induction st as [cs|vs|vs|l ty v|l ts|l ts|l ts pf|ss IH] using stmt_ind2; cbn [stmt_dvars stmt_mvs];
+    try (intros ? []); try apply incl_refl.
+  intros x Hx. apply in_flat_map in Hx. destruct Hx as [s [Hs Hx]]. rewrite Forall_forall in IH.
+  apply in_flat_map. exists s. split; [assumption|]. now apply (IH s Hs).
+Qed.
+
+(** statements of an axiom block *)
+Fixpoint axgood (s : stmt) : bool :=
+  match s with
+  | SD _ | SE _ _ | SA _ _ => true
+  | SB ss => (fix go (l : list stmt) : bool := match l with [] => true | a :: l' => axgood a && go l' end) ss
+  | _ => false
+  end.
+Lemma axgood_block ss : axgood (SB ss) = forallb axgood ss.
+Proof. cbn [axgood]. induction ss as [|a ss IH]; [reflexivity|]. cbn [forallb]. now rewrite IH. Qed.
+
+Lemma axgood_facts st : axgood st = true -> kgood st = true /\ toax st = st.
+Proof.
+  induction st as [cs|vs|vs|l ty v|l ts|l ts|l ts pf|ss IH] using stmt_ind2; intros H; try (cbn in H; discriminate);
+    try (split; reflexivity).
+  rewrite axgood_block in H. rewrite kgood_block. cbn [toax].
+  assert (forallb kgood ss = true /\ map toax ss = ss) as [H1 H2].
+  { induction ss as [|a ss IHss]; [split; reflexivity|]. inversion IH as [|? ? IHa IHr]; subst.
+    cbn [forallb] in H. apply andb_true_iff in H. destruct H as [Ha Hr].
+    destruct (IHa Ha) as [K1 T1]. destruct (IHss IHr Hr) as [K2 T2]. cbn [forallb map]. rewrite K1, K2, T1, T2. split; reflexivity. }
+  rewrite H1, H2. split; reflexivity.
+Qed.
+
+(** assertion labels *)
+Fixpoint stmt_alabels (s : stmt) : list string :=
+  match s with
+  | SA l _ | SP l _ _ => [l]
+  | SB ss => flat_map stmt_alabels ss
+  | _ => []
+  end.
+
+Lemma ma_loop_ax : forall f q last l, ma_loop f q last = MAx l ->
+  forallb axgood q = true /\ ((exists ts, last = Some (SA l ts)) \/ In l (flat_map stmt_alabels q)).
+Proof.
+  induction f as [|f IH]; intros q last l H; [discriminate|].
+  cbn [ma_loop] in H. destruct q as [|s q'].
+  - destruct last as [[]|]; try discriminate. injection H as ->. split; [reflexivity|]. left. now eexists.
+  - destruct s; try discriminate.
+    + apply IH in H. destruct H as [N R]. split; [exact N|]. right. destruct R as [[tsx R]|R]; [discriminate|].
+      cbn [flat_map stmt_alabels app]. exact R.
+    + apply IH in H. destruct H as [N R]. split; [exact N|]. right. destruct R as [[tsx R]|R]; [discriminate|].
+      cbn [flat_map stmt_alabels app]. exact R.
+    + apply IH in H. destruct H as [N R]. split; [exact N|]. right. destruct R as [[ts0 R]|R].
+      * injection R as -> _. cbn [flat_map stmt_alabels]. now left.
+      * cbn [flat_map stmt_alabels]. now right.
+    + apply IH in H. destruct H as [N R]. rewrite forallb_app in N. apply andb_true_iff in N. destruct N as [N1 N2].
+      split; [cbn [forallb]; now rewrite axgood_block, N2, N1|]. right.
+      destruct R as [[tsx R]|R]; [discriminate|]. rewrite flat_map_app in R. cbn [flat_map stmt_alabels].
+      apply in_app_or in R. apply in_or_app. destruct R as [R|R]; [now right|now left].
+Qed.
+
+(* ------------------------------------------------------------------ D1b. label tables *)
+Lemma assoc_get_app {A} x (a b : list (string * A)) :
+  assoc_get x (a ++ b) = match assoc_get x a with Some e => Some e | None => assoc_get x b end.
+Proof.
+  induction a as [|[k v] a IH]; [reflexivity|]. cbn [app assoc_get]. destruct (String.eqb x k); [reflexivity|exact IH].
+Qed.
+
+Lemma assoc_get_in_keys x (L : list (string * lentry)) e : assoc_get x L = Some e -> In x (lkeys L).
+Proof.
+  induction L as [|[k v] L IH]; [discriminate|]. cbn [assoc_get lkeys map fst].
+  destruct (String.eqb_spec x k) as [->|]; [now left|right; now apply IH].
+Qed.
+
+Lemma assoc_get_none x (L : list (string * lentry)) : ~ In x (lkeys L) -> assoc_get x L = None.
+Proof.
+  induction L as [|[k v] L IH]; [reflexivity|]. cbn [assoc_get lkeys map fst]. intros H.
+  destruct (String.eqb_spec x k) as [->|]; [exfalso; apply H; now left|]. apply IH. intros Hc. apply H. now right.
+Qed.
+
+Lemma assoc_get_keys_some x (L : list (string * lentry)) : In x (lkeys L) -> exists e, assoc_get x L = Some e.
+Proof.
+  induction L as [|[k v] L IH]; [intros []|]. cbn [assoc_get lkeys map fst]. intros H.
+  destruct (String.eqb_spec x k) as [->|Hne]; [now eexists|]. destruct H as [H|H]; [congruence|now apply IH].
+Qed.
+
+Definition RL (L L' : list (string * lentry)) : Prop := forall x e, assoc_get x L' = Some e -> assoc_get x L = Some e.
+
+Lemma RL_same new L L' : RL L L' -> RL (new ++ L) (new ++ L').
+Proof.
+  intros H x e. rewrite !assoc_get_app. destruct (assoc_get x new); [auto|]. apply H.
+Qed.
+
+Lemma RL_db new L L' : RL L L' -> (forall x, In x (lkeys new) -> ~ In x (lkeys L')) -> RL (new ++ L) L'.
+Proof.
+  intros H D x e Hx. rewrite assoc_get_app.
+  destruct (assoc_get x new) as [e0|] eqn:E0; [|now apply H].
+  exfalso. apply (D x); [now apply (assoc_get_in_keys x new e0)|now apply (assoc_get_in_keys x L' e)].
+Qed.
+
+Lemma vstmt_alabels target st : forall sc sc1, vstmt target sc st = WCont sc1 ->
+  exists new, s_labels sc1 = (new ++ s_labels sc)%list /\
+              forall x, In x (stmt_alabels st) -> exists fr, In (x, LAssert fr) new.
+Proof.
+  induction st as [cs|vs|vs|l ty v|l ts|l ts|l ts pf|ss IH] using stmt_ind2; intros sc sc1 H.
+  - cbn in H. injection H as <-. exists []. split; [reflexivity|intros ? []].
+  - cbn in H. injection H as <-. exists []. split; [reflexivity|intros ? []].
+  - cbn in H. destruct (forallb _ vs); [|discriminate]. injection H as <-. exists []. split; [reflexivity|intros ? []].
+  - cbn [vstmt] in H. destruct (_ && _); [|discriminate]. injection H as <-.
+    eexists [_]. split; [reflexivity|intros ? []].
+  - cbn [vstmt] in H. cbv zeta in H. destruct (expr_ok sc (pts ts)); [|discriminate]. injection H as <-.
+    eexists [_]. split; [reflexivity|intros ? []].
+  - cbn [vstmt] in H. cbv zeta in H. destruct (expr_ok sc (pts ts)); [|discriminate]. injection H as <-.
+    eexists [(l, LAssert _)]. split; [reflexivity|]. intros x [<-|[]]. eexists. now left.
+  - cbn [vstmt] in H. cbv zeta in H. destruct (expr_ok sc (pts ts)); [|discriminate].
+    destruct (String.eqb l target); [discriminate|]. injection H as <-.
+    eexists [(l, LAssert _)]. split; [reflexivity|]. intros x [<-|[]]. eexists. now left.
+  - rewrite vstmt_block in H. destruct (vstmts target sc ss) as [| inner |] eqn:E; try discriminate.
+    injection H as <-.
+    assert (Hin : exists newI, s_labels inner = (newI ++ s_labels sc)%list /\
+                   forall x, In x (flat_map stmt_alabels ss) -> exists fr, In (x, LAssert fr) newI).
+    { clear -IH E. revert sc inner E. induction ss as [|a ss IHss]; intros sc inner E.
+      - cbn in E. injection E as <-. exists []. split; [reflexivity|intros ? []].
+      - inversion IH as [|? ? IHa IHr]; subst. cbn [vstmts] in E.
+        destruct (vstmt target sc a) as [| sc2 |] eqn:Ea; try discriminate.
+        destruct (IHa _ _ Ea) as [n1 [L1 I1]]. destruct (IHss IHr _ _ E) as [n2 [L2 I2]].
+        exists (n2 ++ n1)%list. split; [rewrite L2, L1; now rewrite app_assoc|].
+        intros x Hx. cbn [flat_map] in Hx. apply in_app_or in Hx. destruct Hx as [Hx|Hx].
+        + destruct (I1 x Hx) as [fr Hfr]. exists fr. apply in_or_app. now right.
+        + destruct (I2 x Hx) as [fr Hfr]. exists fr. apply in_or_app. now left. }
+    destruct Hin as [newI [LI II]].
+    exists (filter is_assert newI). split.
+    + unfold leave_block. cbn [s_labels]. rewrite LI. now rewrite firstn_app_exact.
+    + cbn [stmt_alabels]. intros x Hx. destruct (II x Hx) as [fr Hfr]. exists fr. apply filter_In. split; [assumption|reflexivity].
+Qed.
+
+Lemma singleton_block target sc l ts : vstmt target sc (SB [SA l ts]) = vstmt target sc (SA l ts).
+Proof.
+  rewrite vstmt_block. cbn [vstmts vstmt]. cbv zeta. destruct (expr_ok sc (pts ts)); [|reflexivity].
+  unfold leave_block, add_label. cbn [s_labels s_consts s_vars s_hyps s_dvs].
+  f_equal. f_equal.
+  change ((l, LAssert (make_frame sc (pts ts))) :: s_labels sc) with ([(l, LAssert (make_frame sc (pts ts)))] ++ s_labels sc)%list.
+  rewrite firstn_app_exact. reflexivity.
+Qed.
+
+Lemma SD_SE_toax ants : forallb is_SD_SE ants = true -> map toax ants = ants /\ forallb kgood ants = true /\ flat_map stmt_alabels ants = [].
+Proof.
+  induction ants as [|a ants IH]; intros H; [repeat split|]. cbn [forallb] in H. apply andb_true_iff in H. destruct H as [Ha Hr].
+  destruct (IH Hr) as (T & K & L). cbn [map forallb flat_map]. rewrite T, K, L.
+  destruct a; try discriminate; repeat split.
+Qed.
+
+(** the statement stored in [cut_antecedents] for a processable assertion / block behaves like [toax st] *)
+Lemma stored_facts st : match st with SA _ _ | SP _ _ _ | SB _ => True | _ => False end -> processable st ->
+  exists k st', entry st = [(Some k, st')] /\ kgood st = true /\ nodecl st = true /\ In k (stmt_alabels st) /\
+    stmt_mvs st' = stmt_mvs st /\ stmt_csyms st' = stmt_csyms st /\
+    (match st' with SD _ | SF _ _ _ | SE _ _ => False | _ => True end) /\
+    forall target sc, vstmt target sc st' = vstmt target sc (toax st).
+Proof.
+  intros Hshape P.
+  assert (E : entry st = match match_axiom st with
+         | MAx k => [(Some k, st)]
+         | MNone => match deconstruct_provable st with
+                    | Some (ants, l, ts, _) => [(Some l, construct_axiom ants l ts)]
+                    | None => []
+                    end
+         | MCrash => []
+         end) by (destruct st; try destruct Hshape; reflexivity).
+  assert (P' : entry st <> []) by (destruct st; try destruct Hshape; exact P).
+  destruct (match_axiom st) as [| |k] eqn:EM.
+  - congruence.
+  - destruct (deconstruct_provable st) as [[[[ants l] ts] pf]|] eqn:ED; [|congruence].
+    destruct (deconstruct_provable_ok _ _ _ _ _ ED) as [HA Hform].
+    destruct (SD_SE_toax ants HA) as (TA & KA & LA).
+    exists l, (construct_axiom ants l ts). split; [exact E|].
+    destruct Hform as [[-> ->]| ->].
+    + cbn [construct_axiom]. repeat split; try reflexivity. now left.
+    + split; [rewrite kgood_block, forallb_app, KA; reflexivity|].
+      split; [rewrite nodecl_block, forallb_app; rewrite (SD_SE_nodecl ants HA); reflexivity|].
+      split; [cbn [stmt_alabels]; rewrite flat_map_app, LA; now left|].
+      destruct ants as [|a ants'].
+      * cbn [construct_axiom app]. repeat split; try (cbn; now rewrite !app_nil_r).
+        intros target sc. cbn [toax map]. symmetry. apply singleton_block.
+      * cbn [construct_axiom]. remember (a :: ants') as an.
+        repeat split; try (cbn [stmt_mvs stmt_csyms]; rewrite !flat_map_app; reflexivity).
+        intros target sc. cbn [toax]. rewrite map_app, TA. reflexivity.
+  - destruct st; try destruct Hshape.
+    + cbn in EM. injection EM as <-. exists l, (SA l ts). repeat split; try reflexivity; try exact E. now left.
+    + cbn in EM. discriminate.
+    + cbn [match_axiom] in EM. apply ma_loop_ax in EM. destruct EM as [N R].
+      assert (AG : axgood (SB ss) = true) by now rewrite axgood_block.
+      destruct (axgood_facts _ AG) as [K T].
+      exists k, (SB ss). split; [exact E|]. split; [exact K|].
+      split. { clear -N. rewrite nodecl_block. rewrite forallb_forall in *. intros s Hs. specialize (N s Hs).
+               revert N. clear. induction s as [cs|vs|vs|l ty v|l ts|l ts|l ts pf|ss IH] using stmt_ind2; intros N; try (cbn in N; discriminate); try reflexivity.
+               rewrite axgood_block in N. rewrite nodecl_block. rewrite forallb_forall in *. intros s Hs. rewrite Forall_forall in IH. apply IH; auto. }
+      split. { cbn [stmt_alabels]. destruct R as [[ts R]|R]; [discriminate|exact R]. }
+      repeat split; try reflexivity. intros target sc. now rewrite T.
+Qed.
+
+(* ------------------------------------------------------------------ D2. top-level simulation *)
+Lemma forallb_filter_self {A} (p : A -> bool) l : forallb p (filter p l) = true.
+Proof. apply forallb_forall. intros x Hx. apply filter_In in Hx. now destruct Hx. Qed.
+
+Section Top.
+  Variable V C M n2 : list string.
+  Variable target : string.
+  Variable cutall : dict.
+  Hypothesis HMV : incl M V.
+  Hypothesis HLV : ~ In LP V.
+  Hypothesis HRV : ~ In RP V.
+  Hypothesis HLC : In LP C.
+  Hypothesis HRC : In RP C.
+  Hypothesis K1 : forall k st', In (Some k, st') cutall -> In k n2 -> incl (stmt_mvs st') M.
+  Hypothesis K2 : forall k l ts, In (k, SE l ts) cutall -> incl (flat_map term_mvs ts) M.
+  Hypothesis K3 : forall st', In st' (flat_map (keep_entry sguards_fixed n2 M) cutall) -> incl (stmt_csyms st') C.
+
+  Notation Rel := (Rel V C M).
+  Notation keep := (keep_entry sguards_fixed n2 M).
+
+  Definition TRel (sc sc' : scope) (done : list stmt) : Prop :=
+    Rel sc sc' /\ RL (s_labels sc) (s_labels sc') /\
+    incl (lkeys (s_labels sc')) (flat_map stmt_labels done) /\
+    (forall k st', In (Some k, st') (flat_map entry done) -> In k n2 -> In k (lkeys (s_labels sc'))).
+
+  Definition symfact (st : stmt) : Prop := forall c, In c (stmt_csyms st) -> ~ In c V.
+
+  (** both walks add the same label entries *)
+  Lemma trel_same st done sc sc' sc2 sc2' new :
+    TRel sc sc' done -> Rel sc2 sc2' ->
+    s_labels sc2 = (new ++ s_labels sc)%list -> s_labels sc2' = (new ++ s_labels sc')%list ->
+    incl (lkeys new) (stmt_labels st) ->
+    (forall k st', In (Some k, st') (entry st) -> In k n2 -> In k (lkeys new)) ->
+    TRel sc2 sc2' (done ++ [st]).
+  Proof.
+    intros (R & HRL & HD & HK) R2 L2 L2' IN KN. split; [exact R2|]. rewrite L2, L2'. split; [now apply RL_same|]. split.
+    - unfold lkeys in *. rewrite map_app, flat_map_app. cbn [flat_map]. rewrite app_nil_r.
+      apply incl_app; [now apply incl_appr|now apply incl_appl].
+    - intros k st' Hin Hk. rewrite flat_map_app in Hin. cbn [flat_map] in Hin. rewrite app_nil_r in Hin.
+      unfold lkeys in *. rewrite map_app. apply in_or_app. apply in_app_or in Hin. destruct Hin as [Hin|Hin].
+      + right. now apply (HK k st').
+      + left. now apply (KN k st').
+  Qed.
+
+  (** only the database walk adds label entries (statement not kept) *)
+  Lemma trel_db st done sc sc' sc2 new :
+    TRel sc sc' done -> Rel sc2 sc' -> s_labels sc2 = (new ++ s_labels sc)%list ->
+    incl (lkeys new) (stmt_labels st) ->
+    (forall x, In x (stmt_labels st) -> ~ In x (flat_map stmt_labels done)) ->
+    (forall k st', In (Some k, st') (entry st) -> ~ In k n2) ->
+    TRel sc2 sc' (done ++ [st]).
+  Proof.
+    intros (R & HRL & HD & HK) R2 L2 IN DJ KN. split; [exact R2|]. rewrite L2. split; [|split].
+    - apply RL_db; [assumption|]. intros x Hx Hx'. apply (DJ x); [now apply IN|now apply HD].
+    - rewrite flat_map_app. now apply incl_appl.
+    - intros k st' Hin Hk. rewrite flat_map_app in Hin. cbn [flat_map] in Hin. rewrite app_nil_r in Hin.
+      apply in_app_or in Hin. destruct Hin as [Hin|Hin]; [now apply (HK k st')|]. exfalso. now apply (KN k st').
+  Qed.
+
+  Lemma sim_kept st st' sc sc' sc2 :
+    Rel sc sc' -> kgood st = true -> incl (stmt_mvs st) M -> incl (stmt_mvs st) (s_vars sc) ->
+    incl (stmt_csyms st) C -> symfact st ->
+    (forall sc0, vstmt target sc0 st' = vstmt target sc0 (toax st)) ->
+    vstmt target sc st = WCont sc2 ->
+    exists sc2' new, vstmt target sc' st' = WCont sc2' /\ Rel sc2 sc2' /\
+      s_labels sc2 = (new ++ s_labels sc)%list /\ s_labels sc2' = (new ++ s_labels sc')%list /\
+      s_vars sc2 = s_vars sc /\ incl (lkeys new) (stmt_labels st) /\
+      (forall x, In x (stmt_alabels st) -> In x (lkeys new)).
+  Proof.
+    intros R K HM HA HC HS HT H.
+    destruct (sim_stmt V C M target HMV st sc sc' sc2 K) as (sc2' & new & E & R2 & L2 & L2' & V2); try assumption.
+    - now apply (eok_of_facts V C M (s_vars sc) st).
+    - intros x Hx. apply HM. now apply stmt_dvars_mvs.
+    - exists sc2', new. rewrite HT. split; [exact E|]. split; [exact R2|]. split; [exact L2|]. split; [exact L2'|].
+      split; [exact V2|].
+      destruct (vstmt_labels _ _ _ _ H) as [n0 [L0 I0]]. rewrite L2 in L0. apply app_inv_tail in L0. subst n0.
+      split; [exact I0|].
+      destruct (vstmt_alabels _ _ _ _ H) as [n1 [L1 I1]]. rewrite L2 in L1. apply app_inv_tail in L1. subst n1.
+      intros x Hx. destruct (I1 x Hx) as [fr Hfr]. unfold lkeys. apply in_map_iff. exists (x, LAssert fr). split; [reflexivity|assumption].
+  Qed.
+
+  Lemma sim_step st done sc sc' sc2 :
+    incl (entry st) cutall -> processable st -> symfact st -> incl (decl st) V ->
+    wf_stmt (s_vars sc) st = true ->
+    (forall x, In x (stmt_labels st) -> ~ In x (flat_map stmt_labels done)) ->
+    TRel sc sc' done -> vstmt target sc st = WCont sc2 ->
+    exists sc2', vstmts target sc' (flat_map keep (entry st)) = WCont sc2' /\ TRel sc2 sc2' (done ++ [st]) /\
+                 s_vars sc2 = (s_vars sc ++ decl st)%list.
+  Proof.
+    intros HI P HS HDV W DJ T H. pose proof T as (R & HRL & HD & HK). pose proof R as [RC RV RH RD RK RA RO].
+    assert (Hgen : match st with SA _ _ | SP _ _ _ | SB _ => True | _ => False end ->
+              exists sc2', vstmts target sc' (flat_map keep (entry st)) = WCont sc2' /\ TRel sc2 sc2' (done ++ [st]) /\
+                           s_vars sc2 = (s_vars sc ++ decl st)%list).
+    { intros Hshape. destruct (stored_facts st Hshape P) as (k & st' & Ee & Kg & Nd & Ka & Em & Ec & Hns & Ht).
+      rewrite Ee in *. cbn [flat_map]. rewrite app_nil_r.
+      assert (Hcut : In (Some k, st') cutall) by (apply HI; now left).
+      assert (Hkeep : keep (Some k, st') = if mem k n2 then [st'] else []).
+      { unfold keep_entry. cbn [fst snd key_in]. destruct st'; try destruct Hns; now rewrite orb_false_r. }
+      rewrite Hkeep. rewrite (nodecl_decl st Nd), app_nil_r.
+      destruct (mem k n2) eqn:Ek.
+      - apply mem_In in Ek.
+        destruct (kshape_of_wf st (s_vars sc) W Nd) as [_ [U1 _]].
+        destruct (sim_kept st st' sc sc' sc2 R Kg) as (sc2' & new & E & R2 & L2 & L2' & V2 & I2 & A2); try assumption.
+        + rewrite <- Em. now apply (K1 k st').
+        + rewrite <- Ec. apply K3. apply in_flat_map. exists (Some k, st'). split; [assumption|].
+          rewrite Hkeep. try (apply mem_In in Ek; rewrite Ek). now left.
+        + intros sc0. apply Ht.
+        + exists sc2'. cbn [vstmts]. rewrite E. split; [reflexivity|]. split; [|exact V2].
+          apply (trel_same st done sc sc' sc2 sc2' new); try assumption. rewrite Ee.
+          intros k0 st0 [E0|[]] _. injection E0 as <- <-. now apply A2.
+      - exists sc'. split; [reflexivity|].
+        destruct (vstmt_same_decls _ _ _ _ Hshape H) as (S1 & S2 & S3 & S4).
+        destruct (vstmt_labels _ _ _ _ H) as [new [L2 I2]].
+        split; [|exact S2].
+        apply (trel_db st done sc sc' sc2 new); try assumption.
+        + constructor; try assumption; rewrite ?S1, ?S2, ?S3, ?S4; assumption.
+        + rewrite Ee. intros k0 st0 [E0|[]]. injection E0 as <- <-. now apply mem_false. }
+    destruct st as [cs|vs|vs|l ty v|l ts|l ts|l ts pf|ss]; try (apply Hgen; exact I).
+    - (* $c *)
+      cbn in H. injection H as <-. exists sc'. cbn [entry flat_map vstmts decl s_vars]. split; [reflexivity|].
+      split; [|now rewrite app_nil_r].
+      apply (trel_db (SC cs) done sc sc' _ []); try assumption; try reflexivity.
+      + constructor; cbn [s_consts s_vars s_hyps s_dvs]; try assumption; try reflexivity.
+        intros c Hc. apply in_app_or in Hc. destruct Hc as [Hc|Hc]; [now apply RK|now apply HS].
+      + intros ? [].
+      + intros ? ? [].
+    - (* $v *)
+      cbn in H. injection H as <-. exists sc'. cbn [entry flat_map vstmts decl s_vars]. split; [reflexivity|].
+      split; [|reflexivity].
+      apply (trel_db (SV vs) done sc sc' _ []); try assumption; try reflexivity.
+      + constructor; cbn [s_consts s_vars s_hyps s_dvs]; try assumption; try reflexivity.
+        * apply incl_app; assumption.
+        * eapply Forall_impl; [|exact RO]. intros h. apply hyp_ok_mono. now apply incl_appl.
+      + intros ? [].
+      + intros ? ? [].
+    - (* top-level $d *)
+      cbn [vstmt] in H. destruct (forallb (fun v => mem v (s_vars sc)) vs) eqn:Ev; [|discriminate]. injection H as <-.
+      cbn [entry flat_map decl s_vars]. rewrite !app_nil_r. unfold keep_entry. cbn [snd].
+      destruct (Nat.leb 2 (length (filter (fun v => mem v M) vs))) eqn:E2.
+      + cbn [vstmts vstmt]. rewrite RV, forallb_filter_self. eexists. split; [reflexivity|]. split; [|reflexivity].
+        apply (trel_same (SD vs) done sc sc' _ _ []); try assumption; try reflexivity.
+        * constructor; cbn [s_consts s_vars s_hyps s_dvs]; try assumption; try reflexivity.
+          rewrite RD, filter_app, all_pairs_filter. reflexivity.
+        * intros ? [].
+        * cbn [entry]. intros k st' [E0|[]]. discriminate.
+      + exists sc'. split; [reflexivity|]. split; [|reflexivity].
+        apply (trel_db (SD vs) done sc sc' _ []); try assumption; try reflexivity.
+        * constructor; cbn [s_consts s_vars s_hyps s_dvs]; try assumption; try reflexivity.
+          rewrite RD, filter_app, all_pairs_filter, all_pairs_short; [now rewrite app_nil_r|].
+          apply Nat.leb_gt in E2. exact E2.
+        * intros ? [].
+        * cbn [entry]. intros k st' [E0|[]]. discriminate.
+    - (* $f *)
+      cbn [vstmt] in H. destruct (mem ty (s_consts sc) && mem v (s_vars sc)) eqn:Eo; [|discriminate]. injection H as <-.
+      cbn [entry flat_map decl]. rewrite !app_nil_r. unfold keep_entry. cbn [fst snd key_in].
+      assert (Hcut : In (Some l, SF l ty v) cutall) by (apply HI; now left).
+      set (h := {| h_label := l; h_isf := true; h_expr := [ty; v] |}).
+      destruct (mem l n2 || mem v M) eqn:Eb.
+      + assert (HvM : mem v M = true).
+        { apply orb_true_iff in Eb. destruct Eb as [Eb|Eb]; [|exact Eb]. apply mem_In in Eb.
+          apply mem_In. apply (K1 l _ Hcut Eb). now left. }
+        assert (HtyC : mem ty C = true).
+        { apply mem_In. apply (K3 (SF l ty v)); [|now left]. apply in_flat_map. exists (Some l, SF l ty v).
+          split; [assumption|]. unfold keep_entry. cbn [fst snd key_in]. rewrite Eb. now left. }
+        cbn [vstmts vstmt]. rewrite RC, RV, HtyC, HvM. cbn [andb]. eexists. split; [reflexivity|]. split; [|reflexivity].
+        apply (trel_same (SF l ty v) done sc sc' _ _ [(l, LHyp [ty; v])]); try assumption; try reflexivity.
+        * constructor; cbn [add_hyp s_consts s_vars s_hyps s_dvs]; try assumption; try reflexivity.
+          -- assert (Hk : keepH M h = true) by (unfold keepH, h; cbn [h_isf hyp_var h_expr negb orb]; exact HvM).
+             rewrite RH, filter_app. cbn [filter]. fold h. rewrite Hk. reflexivity.
+          -- apply Forall_app. split; [assumption|]. constructor; [|constructor]. unfold hyp_ok. cbn [h_isf h_expr]. now eexists _, _.
+        * intros x [<-|[]]. now left.
+        * cbn [entry]. intros k st' [E0|[]] _. injection E0 as <- _. now left.
+      + apply orb_false_iff in Eb. destruct Eb as [Eb1 Eb2].
+        exists sc'. split; [reflexivity|]. split; [|reflexivity].
+        apply (trel_db (SF l ty v) done sc sc' _ [(l, LHyp [ty; v])]); try assumption; try reflexivity.
+        * constructor; cbn [add_hyp s_consts s_vars s_hyps s_dvs]; try assumption; try reflexivity.
+          -- assert (Hk : keepH M h = false) by (unfold keepH, h; cbn [h_isf hyp_var h_expr negb orb]; exact Eb2).
+             rewrite RH, filter_app. cbn [filter]. fold h. rewrite Hk. now rewrite app_nil_r.
+          -- apply Forall_app. split; [assumption|]. constructor; [|constructor]. unfold hyp_ok. cbn [h_isf h_expr]. now eexists _, _.
+        * intros x [<-|[]]. now left.
+        * cbn [entry]. intros k st' [E0|[]]. injection E0 as <- _. now apply mem_false.
+    - (* top-level $e: always kept *)
+      cbn [entry flat_map decl]. rewrite !app_nil_r.
+      assert (Hcut : In (Some l, SE l ts) cutall) by (apply HI; now left).
+      assert (Hkeep : keep (Some l, SE l ts) = [SE l ts]).
+      { unfold keep_entry. cbn [fst snd]. now rewrite orb_true_r. }
+      rewrite Hkeep.
+      destruct (kshape_of_wf (SE l ts) (s_vars sc) W eq_refl) as [_ [U1 _]].
+      destruct (sim_kept (SE l ts) (SE l ts) sc sc' sc2 R eq_refl) as (sc2' & new & E & R2 & L2 & L2' & V2 & I2 & A2); try assumption.
+      + exact (K2 _ _ _ Hcut).
+      + apply K3. apply in_flat_map. exists (Some l, SE l ts). split; [assumption|]. rewrite Hkeep. now left.
+      + reflexivity.
+      + exists sc2'. cbn [vstmts]. rewrite E. split; [reflexivity|]. split; [|exact V2].
+        apply (trel_same (SE l ts) done sc sc' sc2 sc2' new); try assumption.
+        cbn [entry]. intros k st' [E0|[]] _. injection E0 as <- _.
+        cbn [vstmt] in H. cbv zeta in H. destruct (expr_ok sc (pts ts)); [|discriminate]. injection H as <-.
+        cbn [add_hyp s_labels h_label h_expr] in L2.
+        change ((l, LHyp (pts ts)) :: s_labels sc) with ([(l, LHyp (pts ts))] ++ s_labels sc)%list in L2.
+        apply app_inv_tail in L2. subst new. now left.
+  Qed.
+
+  Lemma sim_top : forall pre done sc sc' sc1,
+    incl (flat_map entry pre) cutall -> Forall processable pre ->
+    (forall st, In st pre -> symfact st /\ incl (decl st) V) ->
+    wf_stmts (s_vars sc) pre = true ->
+    NoDup (flat_map stmt_labels (done ++ pre)) ->
+    TRel sc sc' done -> vstmts target sc pre = WCont sc1 ->
+    exists sc1', vstmts target sc' (flat_map keep (flat_map entry pre)) = WCont sc1' /\ TRel sc1 sc1' (done ++ pre) /\
+                 s_vars sc1 = (s_vars sc ++ decls pre)%list.
+  Proof.
+    induction pre as [|st pre IH]; intros done sc sc' sc1 HI P HS W ND T H.
+    - cbn in H. injection H as <-. exists sc'. rewrite !app_nil_r. split; [reflexivity|]. split; [exact T|reflexivity].
+    - inversion P as [|? ? Pst Pr]; subst. cbn [vstmts] in H.
+      destruct (vstmt target sc st) as [| sc2 |] eqn:Est; try discriminate.
+      cbn [wf_stmts] in W. apply andb_true_iff in W. destruct W as [Wst Wr].
+      cbn [flat_map] in HI.
+      destruct (HS st (or_introl eq_refl)) as [Hsym Hdv].
+      destruct (sim_step st done sc sc' sc2) as (sc2' & E2 & T2 & V2); try assumption.
+      + intros x Hx. apply HI. apply in_or_app. now left.
+      + intros x Hx Hd. rewrite flat_map_app in ND. apply (nodup_app_disj _ _ x ND); [|exact Hd].
+        cbn [flat_map]. apply in_or_app. now left.
+      + destruct (IH (done ++ [st])%list sc2 sc2' sc1) as (sc1' & E1 & T1 & V1); try assumption.
+        * intros x Hx. apply HI. apply in_or_app. now right.
+        * intros s Hs. apply HS. now right.
+        * now rewrite V2.
+        * rewrite <- app_assoc. exact ND.
+        * exists sc1'. cbn [flat_map]. rewrite flat_map_app, vstmts_app, E2. split; [exact E1|].
+          rewrite <- app_assoc in T1. split; [exact T1|]. rewrite V1, V2. unfold decls. cbn [flat_map]. now rewrite app_assoc.
+  Qed.
+End Top.
+
+(* ------------------------------------------------------------------ E. assembly *)
+Lemma top_label_in st k : In k (top_label st) -> In k (stmt_labels st).
+Proof.
+  destruct st as [cs|vs|vs|l ty v|l ts|l ts|l ts pf|ss]; cbn [top_label stmt_labels];
+    [intros []|intros []|intros []|auto|auto|auto|auto|].
+  destruct (match_axiom (SB ss)) as [| |l] eqn:EM.
+  - destruct (deconstruct_provable (SB ss)) as [[[[a l0] t] p]|] eqn:ED; [|intros []].
+    intros [<-|[]]. destruct (deconstruct_provable_ok _ _ _ _ _ ED) as [_ [[E _]|E]]; [discriminate|].
+    injection E as ->. rewrite flat_map_app. apply in_or_app. right. now left.
+  - destruct (deconstruct_provable (SB ss)) as [[[[a l0] t] p]|] eqn:ED; [|intros []].
+    intros [<-|[]]. destruct (deconstruct_provable_ok _ _ _ _ _ ED) as [_ [[E _]|E]]; [discriminate|].
+    injection E as ->. rewrite flat_map_app. apply in_or_app. right. now left.
+  - intros [<-|[]]. destruct (match_axiom_ok _ _ EM) as [_ H]. exact H.
+Qed.
+
+Lemma top_label_len st : length (top_label st) <= 1.
+Proof.
+  destruct st as [cs|vs|vs|l ty v|l ts|l ts|l ts pf|ss]; cbn [top_label length]; try lia.
+  destruct (match_axiom (SB ss)); cbn [length]; try lia;
+    destruct (deconstruct_provable (SB ss)) as [[[[a l0] t] p]|]; cbn [length]; lia.
+Qed.
+
+Lemma nodup_app_r {A} (a b : list A) : NoDup (a ++ b) -> NoDup b.
+Proof. induction a as [|x a IH]; intros H; [exact H|]. cbn [app] in H. inversion H; subst. now apply IH. Qed.
+Lemma nodup_app_l {A} (a b : list A) : NoDup (a ++ b) -> NoDup a.
+Proof.
+  induction a as [|x a IH]; intros H; [constructor|]. cbn [app] in H. inversion H as [|? ? Hx H']; subst.
+  constructor; [|now apply IH]. intros Hc. apply Hx. apply in_or_app. now left.
+Qed.
+
+Lemma top_labels_nodup db : NoDup (flat_map stmt_labels db) -> NoDup (flat_map top_label db).
+Proof.
+  induction db as [|st db IH]; intros ND; [constructor|]. cbn [flat_map] in *.
+  assert (ND2 : NoDup (flat_map stmt_labels db)) by (now apply nodup_app_r in ND).
+  specialize (IH ND2).
+  pose proof (top_label_len st) as HL. pose proof (top_label_in st) as HI.
+  destruct (top_label st) as [|k [|k2 r]]; [exact IH| |cbn [length] in HL; lia].
+  cbn [app]. constructor; [|exact IH]. intros Hk. apply in_flat_map in Hk. destruct Hk as [s [Hs Hk]].
+  apply (nodup_app_disj _ _ k ND).
+  - apply in_flat_map. exists s. split; [assumption|]. now apply top_label_in.
+  - apply HI. now left.
+Qed.
+
+Lemma entry_mvs A st : wf_stmt A st = true -> processable st ->
+  forall kv, In kv (entry st) -> incl (stmt_mvs (snd kv)) A.
+Proof.
+  intros W P kv Hkv.
+  assert (Hnd : nodecl st = true -> incl (stmt_mvs st) A).
+  { intros N. destruct (kshape_of_wf st A W N) as [_ [U _]]. exact U. }
+  destruct st as [cs|vs|vs|l ty v|l ts|l ts|l ts pf|ss].
+  - destruct Hkv.
+  - destruct Hkv.
+  - destruct Hkv as [<-|[]]. now apply Hnd.
+  - destruct Hkv as [<-|[]]. now apply Hnd.
+  - destruct Hkv as [<-|[]]. now apply Hnd.
+  - destruct (stored_facts (SA l ts) I P) as (k & st' & Ee & _ & Nd & _ & Em & _). rewrite Ee in Hkv.
+    destruct Hkv as [<-|[]]. cbn [snd]. rewrite Em. now apply Hnd.
+  - destruct (stored_facts (SP l ts pf) I P) as (k & st' & Ee & _ & Nd & _ & Em & _). rewrite Ee in Hkv.
+    destruct Hkv as [<-|[]]. cbn [snd]. rewrite Em. now apply Hnd.
+  - destruct (stored_facts (SB ss) I P) as (k & st' & Ee & _ & Nd & _ & Em & _). rewrite Ee in Hkv.
+    destruct Hkv as [<-|[]]. cbn [snd]. rewrite Em. now apply Hnd.
+Qed.
+
+Lemma entries_mvs : forall pre A, wf_stmts A pre = true -> Forall processable pre ->
+  forall kv, In kv (flat_map entry pre) -> incl (stmt_mvs (snd kv)) (A ++ decls pre).
+Proof.
+  induction pre as [|st pre IH]; intros A W P kv Hkv; [destruct Hkv|].
+  inversion P as [|? ? Pst Pr]; subst. cbn [wf_stmts] in W. apply andb_true_iff in W. destruct W as [Wst Wr].
+  cbn [flat_map] in Hkv. apply in_app_or in Hkv. unfold decls. cbn [flat_map]. destruct Hkv as [Hkv|Hkv].
+  - apply incl_appl. now apply (entry_mvs A st Wst Pst).
+  - rewrite app_assoc. now apply (IH (A ++ decl st)%list Wr Pr).
+Qed.
+
+Lemma wf_stmts_app l1 : forall A l2, wf_stmts A (l1 ++ l2) = true ->
+  wf_stmts A l1 = true /\ wf_stmts (A ++ decls l1) l2 = true.
+Proof.
+  induction l1 as [|a l1 IH]; intros A l2 W.
+  - cbn [decls flat_map]. rewrite app_nil_r. split; [reflexivity|exact W].
+  - cbn [app wf_stmts] in *. apply andb_true_iff in W. destruct W as [Wa Wr].
+    destruct (IH _ _ Wr) as [W1 W2]. rewrite Wa, W1. split; [reflexivity|].
+    unfold decls in *. cbn [flat_map]. now rewrite app_assoc.
+Qed.
+
+Lemma dv_in_filter M dvs a b : dv_in dvs a b = true -> In a M -> In b M -> dv_in (filter (bothM M) dvs) a b = true.
+Proof.
+  unfold dv_in. rewrite !existsb_exists. intros [p [Hp Ep]] Ha Hb. exists p. split; [|exact Ep].
+  apply filter_In. split; [exact Hp|]. unfold bothM. apply mem_In in Ha, Hb.
+  unfold pair_eqb in Ep. cbn [fst snd] in Ep. apply orb_true_iff in Ep.
+  destruct Ep as [Ep|Ep]; apply andb_true_iff in Ep; destruct Ep as [E1 E2]; apply String.eqb_eq in E1, E2; subst;
+    now rewrite Ha, Hb.
+Qed.
+
+Lemma keys_entries pre : Forall processable pre -> keys (flat_map entry pre) = flat_map top_label pre.
+Proof.
+  induction pre as [|st pre IH]; intros P; [reflexivity|]. inversion P as [|? ? Pst Pr]; subst.
+  cbn [flat_map]. rewrite keys_app, (keys_entry st Pst), (IH Pr). reflexivity.
+Qed.
+
+Lemma sym_disjoint_facts db : sym_disjoint db = true ->
+  ~ In LP (decls db) /\ ~ In RP (decls db) /\
+  forall st, In st db -> (forall c, In c (stmt_csyms st) -> ~ In c (decls db)) /\ incl (decl st) (decls db).
+Proof.
+  unfold sym_disjoint, db_csyms. intros H. rewrite forallb_forall in H.
+  assert (G : forall c, In c (LP :: RP :: flat_map stmt_csyms db) -> ~ In c (decls db)).
+  { intros c Hc. specialize (H c Hc). apply negb_true_iff in H. now apply mem_false. }
+  split; [apply G; now left|]. split; [apply G; right; now left|].
+  intros st Hst. split.
+  - intros c Hc. apply G. right. right. apply in_flat_map. eauto.
+  - intros x Hx. unfold decls. apply in_flat_map. eauto.
+Qed.
+
+Lemma header_walk t C M rest :
+  vstmts t scope0 (SC C :: hdr M ++ rest) =
+  vstmts t {| s_consts := C; s_vars := M; s_hyps := []; s_dvs := []; s_labels := [] |} rest.
+Proof. destruct M; reflexivity. Qed.
+
+Lemma nodup3_l {A} (a b c : list A) x : NoDup (a ++ b ++ c) -> In x a -> In x b -> False.
+Proof. intros ND Ha Hb. apply (nodup_app_disj a (b ++ c) x ND); [apply in_or_app; now left|exact Ha]. Qed.
+Lemma nodup3_r {A} (a b c : list A) x : NoDup (a ++ b ++ c) -> In x b -> In x c -> False.
+Proof. intros ND Hb Hc. apply nodup_app_r in ND. apply (nodup_app_disj b c x ND Hc Hb). Qed.
+
+Theorem slice_proof_verifies db sd lemma s :
+  wf_db db = true -> sym_disjoint db = true -> all_labels_unique db -> compressed_lemma db lemma = true ->
+  slice sguards_fixed db sd lemma = Some s -> mm_verify db lemma = true -> mm_verify s lemma = true.
+Proof.
+  intros W SDj U CL HS HV.
+  (* 1. shape of the slicer's run *)
+  unfold slice in HS. apply assoc_get_In in HS. unfold slice_database in HS.
+  destruct (slice_loop_struct sd [lemma] [] db [] lemma s) as (pre & st & post & ants & ts & pf & Edb & Ppre & MA & DP & SU);
+    [cbn [keys flat_map app]; now apply top_labels_nodup|exact HS|].
+  cbn [app] in SU.
+  destruct (supporting_inv _ _ _ _ _ _ _ SU) as (labels & n2 & M & C & PL & IL & F3 & F4 & F5 & F6 & HLC & HRC & F9 & Es).
+  destruct (sym_disjoint_facts db SDj) as (HLV & HRV & SFc).
+  set (V := decls db) in *. set (cutall := flat_map entry pre) in *.
+  destruct (deconstruct_provable_ok _ _ _ _ _ DP) as [HA Hform].
+  destruct (SD_SE_toax ants HA) as (TA & KA & LA).
+  unfold all_labels_unique in U. rewrite Edb, flat_map_app in U. cbn [flat_map] in U.
+  assert (Hlst : In lemma (stmt_labels st)).
+  { destruct Hform as [[-> _]| ->]; [now left|]. cbn [stmt_labels]. rewrite flat_map_app. apply in_or_app. right. now left. }
+  (* well-formedness along the prefix *)
+  unfold wf_db in W. rewrite Edb in W. destruct (wf_stmts_app pre [] _ W) as [Wpre Wst]. cbn [app] in Wst.
+  cbn [wf_stmts] in Wst. apply andb_true_iff in Wst. destruct Wst as [Wst _].
+  assert (Nst : nodecl st = true).
+  { destruct Hform as [[-> _]| ->]; [reflexivity|]. rewrite nodecl_block, forallb_app, (SD_SE_nodecl ants HA). reflexivity. }
+  destruct (kshape_of_wf st (decls pre) Wst Nst) as [_ [Ust _]].
+  assert (Hparts : forall st', In st' (SP lemma ts pf :: ants) -> incl (stmt_mvs st') (stmt_mvs st) /\ incl (stmt_csyms st') (stmt_csyms st)).
+  { intros st' Hst'. destruct Hform as [[-> ->]| ->].
+    - destruct Hst' as [<-|[]]. split; apply incl_refl.
+    - cbn [stmt_mvs stmt_csyms]. split; intros x Hx; apply in_flat_map; exists st'; (split; [|assumption]);
+        apply in_or_app; (destruct Hst' as [<-|Hst']; [right; now left|now left]). }
+  assert (HdeclV : incl (decls pre) V).
+  { unfold V. rewrite Edb. unfold decls. rewrite flat_map_app. now apply incl_appl. }
+  assert (HstIn : In st db) by (rewrite Edb; apply in_or_app; right; now left).
+  assert (HpreIn : forall x, In x pre -> In x db) by (intros x Hx; rewrite Edb; apply in_or_app; now left).
+  assert (HMA : incl M (decls pre)).
+  { intros x Hx. destruct (F6 x Hx) as [st' [Hst' Hx']]. rewrite app_comm_cons in Hst'. apply in_app_or in Hst'.
+    destruct Hst' as [Hst'|Hst'].
+    - apply Ust. now apply (proj1 (Hparts st' Hst')).
+    - apply in_map_iff in Hst'. destruct Hst' as [kv [<- Hkv]].
+      apply (entries_mvs pre [] Wpre Ppre kv Hkv). exact Hx'. }
+  assert (HMV : incl M V) by (intros x Hx; now apply HdeclV, HMA).
+  assert (NDk : NoDup (keys cutall)).
+  { unfold cutall. rewrite (keys_entries pre Ppre). apply top_labels_nodup. now apply nodup_app_l in U. }
+  assert (K1 : forall k st', In (Some k, st') cutall -> In k n2 -> incl (stmt_mvs st') M).
+  { intros k st' Hin Hk. destruct (F3 k Hk) as [st'' [Hg Hm]]. rewrite (dict_get_unique cutall NDk k st' Hin) in Hg.
+    now injection Hg as <-. }
+  (* 2. the database walk *)
+  unfold mm_verify, vfind in HV. destruct (vstmts lemma scope0 db) as [sc fr pf0| |] eqn:Ew; try discriminate.
+  rewrite Edb, vstmts_app in Ew.
+  destruct (vstmts lemma scope0 pre) as [a b c|sc_pre|] eqn:Epre; [| |discriminate].
+  { exfalso. apply vstmts_found in Epre. exact (nodup3_l _ _ _ lemma U Epre Hlst). }
+  cbn [vstmts] in Ew. destruct (vstmt lemma sc_pre st) as [a b c|sc_x|] eqn:Est; [| |discriminate].
+  2:{ exfalso. apply vstmts_found in Ew. exact (nodup3_r _ _ _ lemma U Hlst Ew). }
+  injection Ew as -> -> ->.
+  assert (Hin : exists sc_in, vstmts lemma sc_pre ants = WCont sc_in /\ expr_ok sc_in (pts ts) = true /\
+                              sc = sc_in /\ fr = make_frame sc_in (pts ts) /\ pf0 = pf).
+  { destruct Hform as [[-> ->]| ->].
+    - exists sc_pre. cbn [vstmts vstmt] in *. cbv zeta in Est. destruct (expr_ok sc_pre (pts ts)); [|discriminate].
+      rewrite String.eqb_refl in Est. injection Est as <- <- <-. repeat split.
+    - rewrite vstmt_block, vstmts_app in Est.
+      destruct (vstmts lemma sc_pre ants) as [a b c|sc_in|] eqn:Ea; [| |discriminate].
+      { exfalso. apply vstmts_found in Ea. apply nodup_app_r, nodup_app_l in U. cbn [stmt_labels] in U.
+        rewrite flat_map_app in U. apply (nodup_app_disj _ _ lemma U); [now left|exact Ea]. }
+      exists sc_in. cbn [vstmts vstmt] in Est. cbv zeta in Est. destruct (expr_ok sc_in (pts ts)); [|discriminate].
+      rewrite String.eqb_refl in Est. injection Est as <- <- <-. repeat split. }
+  destruct Hin as (sc_in & Eants & Eok & -> & -> & ->).
+  (* 3. the slice walk *)
+  unfold mm_verify, vfind. rewrite Es, header_walk, vstmts_app.
+  set (sc0' := {| s_consts := C; s_vars := M; s_hyps := []; s_dvs := []; s_labels := [] |}).
+  destruct (sim_top V C M n2 lemma cutall HMV HLV HRV HLC HRC K1 F4 F9 pre [] scope0 sc0' sc_pre)
+    as (sc_pre' & Ek & (Rp & RLp & _ & KNp) & Vp); try assumption.
+  { apply incl_refl. }
+  { intros x Hx. exact (SFc x (HpreIn x Hx)). }
+  { cbn [app]. now apply nodup_app_l in U. }
+  { split; [|split; [|split]].
+    - constructor; cbn; try reflexivity; try (intros ? []); constructor.
+    - intros x e H0. discriminate.
+    - intros ? [].
+    - intros ? ? []. }
+  fold cutall in Ek. fold sc0'. rewrite Ek. cbn [app s_vars scope0] in Vp.
+  (* the lemma's own block *)
+  assert (Hfacts : forall st', In st' (SP lemma ts pf :: ants) ->
+            forall e, In e (stmt_exprs st') -> eok V C M (s_vars sc_pre) e).
+  { intros st' Hst'. destruct (F5 st' Hst') as [Hm Hc]. destruct (Hparts st' Hst') as [Pm Pc].
+    apply eok_of_facts; try assumption.
+    - rewrite Vp. intros x Hx. apply Ust. now apply Pm.
+    - intros c Hc'. apply (proj1 (SFc st HstIn)). now apply Pc. }
+  destruct (sim_stmts V C M lemma ants (proj2 (Forall_forall _ _) (fun x _ => sim_stmt V C M lemma HMV x))
+              sc_pre sc_pre' sc_in KA) as (sc_in' & new & E' & Rin & Lin & Lin' & Vin); try assumption.
+  { intros e He. apply in_flat_map in He. destruct He as [a [Ha He]]. apply (Hfacts a); [now right|exact He]. }
+  { intros x Hx. apply in_flat_map in Hx. destruct Hx as [a [Ha Hx]].
+    apply (proj1 (F5 a (or_intror Ha))). now apply stmt_dvars_mvs. }
+  rewrite TA in E'.
+  assert (Heok : eok V C M (s_vars sc_in) (pts ts)).
+  { rewrite Vin. apply (Hfacts (SP lemma ts pf)); now left. }
+  cbn [vstmts]. rewrite vstmt_block, vstmts_app, E'. cbn [vstmts vstmt]. cbv zeta.
+  rewrite (expr_ok_sim V C M HMV sc_in sc_in' _ Rin Heok Eok), String.eqb_refl.
+  rewrite (make_frame_sim V C M HMV sc_in sc_in' _ Rin (proj1 Heok)).
+  (* 4. the proof check only sees what both scopes agree on *)
+  apply (check_proof_mono_refs sc_in sc_in'); [|exact HV].
+  pose proof Rin as [RC RV RH RD RK RA RO].
+  assert (Hrefs : proof_refs pf = labels).
+  { unfold compressed_lemma, vfind in CL. rewrite Edb, vstmts_app, Epre in CL. cbn [vstmts] in CL.
+    destruct Hform as [[-> ->]| ->].
+    - cbn [vstmts vstmt] in CL, Eants. cbv zeta in CL. injection Eants as ->. rewrite Eok, String.eqb_refl in CL.
+      destruct pf as [[|t rest]|]; try discriminate. apply String.eqb_eq in CL. subst t.
+      cbn [proof_refs proof_labels] in *. change (String.eqb LP LP) with true in *. cbv iota in *.
+      cbn [after_first] in PL. change (String.eqb LP LP) with true in PL. cbv iota in PL. now rewrite PL.
+    - rewrite vstmt_block, vstmts_app, Eants in CL. cbn [vstmts vstmt] in CL. cbv zeta in CL.
+      rewrite Eok, String.eqb_refl in CL.
+      destruct pf as [[|t rest]|]; try discriminate. apply String.eqb_eq in CL. subst t.
+      cbn [proof_refs proof_labels] in *. change (String.eqb LP LP) with true in *. cbv iota in *.
+      cbn [after_first] in PL. change (String.eqb LP LP) with true in PL. cbv iota in PL. now rewrite PL. }
+  rewrite Hrefs. split; [|split].
+  - intros x Hx. rewrite Lin, Lin', !assoc_get_app. destruct (assoc_get x new); [reflexivity|].
+    destruct (F3 x (IL x Hx)) as [st' [Hg _]]. apply dict_get_In in Hg.
+    pose proof (KNp x st' Hg (IL x Hx)) as Hk. destruct (assoc_get_keys_some x _ Hk) as [e He].
+    rewrite He. symmetry. now apply RLp.
+  - rewrite RV, Vin, Vp. exact HMA.
+  - intros a b Hab Ha Hb. rewrite RD. rewrite RV in Ha, Hb. now apply dv_in_filter.
 Qed.
